@@ -114,9 +114,21 @@ NOP_CMDS = [("call foo()", None), (" CALL foo()", None), ("CaLl foo(1, 'a;b')", 
             ("nomatch", None), ("delete from t where id = 1", None),
             ("alter session set query_tag = 'x'", None), ("ALTER SESSION SET QUERY_TAG = \"q\"", None), ("alter session set query_tag = 'x\"", None),
             ("grant select on t to role r", None), ("create stage s2\n url='x'", None), ("alter session set a = 1", None), ("alter table t set comment = 'c3'", None),
-            ("comment on table t is 'c4'", None)]
+            ("comment on table t is 'c4'", None),
+            # phase order: the patterns see the command after variable inlining; an undefined reference raises first
+            ("select $nv", None), ("call foo($nv)", None), ("call foo($undefined_zz)", None), ("$kw foo()", None)]
 NOP_TEXTS = ["call foo(); select 1", " call foo()", "-- c\ncall foo()", "insert into t values (5, 'a;b'); select 'x'; /* skip */ select 3", "select 2; drop table t2; select 'x'",
              "create stage s; insert into t values (6, 'q')", "call foo(); grant select on t to role r", "alter session set query_tag = 'x'; select 1"]
+
+
+NOP_VARS = {"$nv": "'x'", "$kw": "call"}      # session variables set by `_reset`, as their stored text
+
+
+def _inlined(cmd, params):
+    """the command text the nop patterns see: variables inlined, then parameters substituted"""
+    for k, v in NOP_VARS.items():
+        cmd = cmd.replace(k, v)
+    return cmd % tuple("'" + x + "'" for x in params) if params else cmd
 
 
 def _run_nop(pats):
@@ -150,7 +162,7 @@ def _run_nop(pats):
 def _reset(conn):
     """same initial state before every command, built with statements no pattern set matches; the table has a comment that was
     set by COMMENT ON and then changed by ALTER TABLE (side tables hold state a no-op'ed statement must not touch)"""
-    for q in ("create or replace table t as select 100 as id, 'base'::varchar as v", "create or replace table t2 as select 1 as id",
+    for q in ("set nv = 'x'", "set kw = call", "create or replace table t as select 100 as id, 'base'::varchar as v", "create or replace table t2 as select 1 as id",
               "comment on table t is 'c1'", "alter table t set comment = 'c2'"):
         try:
             conn.cursor().execute(q)
@@ -284,7 +296,7 @@ def _judge_nop(chk, pats, with_opt, without_opt):
     lines, metas = [], []
     for cmd, params, how in cmds:
         if how == "execute":
-            text = cmd % tuple("'" + x + "'" for x in params) if params else cmd
+            text = _inlined(cmd, params)
             vec = [bool(re.match(p, text, re.IGNORECASE)) for p in (pats or [])]
             lines.append(f"split\tnop\t{1 if pats is not None else 0}\t" + enc_list(["1" if v else "0" for v in vec]))
             metas.append([text])
@@ -300,6 +312,11 @@ def _judge_nop(chk, pats, with_opt, without_opt):
         case = {"kind": "nop", "pats": pats, "cmd": cmd, "params": params, "how": how}
         chk.case(("nop", repr(pats), cmd, repr(params), how), nontrivial=bool(pats))
         chk.count("nop:" + how + (":match" if any(decisions) else ":nomatch"))
+        if "$undefined_zz" in cmd:
+            if not (isinstance(r, tuple) and r[:2] == ("err", "ProgrammingError")) or after != before:
+                chk.violation(f"nop_regexes={pats}: `{cmd}` references an undefined session variable: it must raise ProgrammingError and change nothing "
+                              f"(whether or not a pattern matches), got {_short(r)}", case, broken="C16_prepare_error_before_nop")
+            continue
         if how == "execute":
             if decisions[0]:
                 ok = r[0] == "rows" and r[1] == [OK] and r[2] == ["status"]
@@ -345,8 +362,8 @@ def _diff(a, b):
 def _nop_effects(chk, pats, with_opt, without_opt):
     """a matching command has no effect: the full state dump after it (rows, tables, comments, columns) = the dump before it"""
     for (cmd, params), (r, before, after) in zip(NOP_CMDS, with_opt):
-        text = cmd % tuple("'" + x + "'" for x in params) if params else cmd
-        matched = bool(pats) and any(re.match(p, text, re.IGNORECASE) for p in pats)
+        text = _inlined(cmd, params)
+        matched = bool(pats) and any(re.match(p, text, re.IGNORECASE) for p in pats) and "$undefined_zz" not in cmd
         if matched and after != before:
             chk.violation(f"nop_regexes={pats}: after `comment on table t is 'c1'; alter table t set comment = 'c2'` the statement `{cmd}` matches a pattern "
                           f"but changed the state: before {_diff(before, after)}, after {_diff(after, before)}", {"kind": "nop", "pats": pats, "cmd": cmd},
@@ -355,7 +372,7 @@ def _nop_effects(chk, pats, with_opt, without_opt):
 
 def gen_cases(chk):
     rnd = random.Random(chk.seed)
-    n = 500 if chk.tier == "quick" else 8000
+    n = 400 if chk.tier == "quick" else 8000
     cases = []
     for k in range(n):
         force = None if k % 5 < 3 else ("f" if k % 5 == 3 else "p")
@@ -473,7 +490,7 @@ def run(chk) -> None:
     chk.rule = ("statement lists of 1-7 insert/update/delete/select statements with adversarial literal contents (quotes, backslashes, ;, --, /*, $$, control chars, "
                 "unicode; $$-strings; quoted identifier with ;), separators `;` with whitespace / line and block comments / empty statements, leading and trailing "
                 "comments, 2 of 5 texts with a statement that fails at execution resp. does not parse at a random position, tuple and dict cursors, return_cursors "
-                "on/off; 15 nop pattern sets (5 of them with back-references / inline flags / named or conditional groups in a later pattern) × 28 commands, each after COMMENT ON + ALTER … SET COMMENT with a full state dump (rows, tables, comments, columns) before and after (plain execute, with parameters) × 8 execute_string texts.  non-trivial = distinct text with ≥ 2 statements")
+                "on/off; 15 nop pattern sets (5 of them with back-references / inline flags / named or conditional groups in a later pattern) × 32 commands (4 of them reference session variables: matched only after inlining / undefined reference raises first), each after COMMENT ON + ALTER … SET COMMENT with a full state dump (rows, tables, comments, columns) before and after (plain execute, with parameters) × 8 execute_string texts.  non-trivial = distinct text with ≥ 2 statements")
     gen_ties(chk)
     cases = gen_cases(chk) + [{"kind": "nop", "pats": p} for p in NOP_SETS]
     _execute(chk, cases)
